@@ -97,6 +97,8 @@ def gen_ops(rng, spec):
             val = last[key]                      # unchanged value
         else:
             val = H.gen_value(rng, v["kind"], e)
+            while val is None:
+                val = H.gen_value(rng, v["kind"], e)
             if v["kind"] == "Number":
                 val = float(round(val, 3))
         last[key] = val
